@@ -245,3 +245,59 @@ def effect(op, a, r):
             return None
         return sorted((e[0], e[1], e[2], e[3] + k) + tuple(e[4:]) if e[1] in (ON, OFF) else e for e in ev_r), d
     return None
+
+
+# ----------------------------------------------------------------------------- the Lean hand model, called synchronously (audit round 4, A5 / B4)
+# `lean_seq` asks the compiled driver (lean/Driver.lean, op `seq`) what the HAND-WRITTEN wrapper model (lean/SCoda/Model/Wrapper.lean over the
+# view models) answers for a history.  The model is tied to the source by the proofs and the correspondence of the properties that own the
+# operations, but it is NOT the code under test: a changed library no longer matches it.  Only the request ENCODERS of pyimpl are used here —
+# nothing of the library runs.  About 6 ms per call (one process start); answers are cached per request line.
+
+_LEAN_CACHE = {}
+
+
+def lean_seq(init, ops):
+    """the driver's answer words for `seq <init> <ops…>`: one word per operation ('ok', 'A[…]', 'R[…]', 'ERR <Name>' counts as two words and is
+    returned as one item).  init = ('rel' | 'abs' | 'new', plain list).  Raises RuntimeError when the driver cannot be run (a harness problem)."""
+    from protocol import LeanDriver, enc_msgs
+    kind, ps = init
+    words = ["seq", kind] + ([] if kind == "new" else enc_msgs([tuple(m) for m in ps]))
+    for op in ops:
+        words += P._enc_seq_op(op)
+    line = " ".join(words)
+    if line not in _LEAN_CACHE:
+        from checklib import Lock
+        d = LeanDriver()
+        d.add(words)
+        with Lock(exclusive=False):
+            ans = d.run(timeout=120)[0]
+        if len(_LEAN_CACHE) > 20000:
+            _LEAN_CACHE.clear()
+        _LEAN_CACHE[line] = ans
+    toks, out = _LEAN_CACHE[line].split(" "), []
+    i = 0
+    while i < len(toks):
+        if toks[i] == "ERR" and i + 1 < len(toks):
+            out.append("ERR " + toks[i + 1])
+            i += 2
+        else:
+            out.append(toks[i])
+            i += 1
+    return out
+
+
+def parse_plain_list(word):
+    """'R[7,0,N,60,…;…]' / 'A[…]' / '[…]' -> list of plain 10-tuples"""
+    body = word[word.index("[") + 1:word.rindex("]")]
+    return [tuple(None if x == "N" else int(x) for x in item.split(",")) for item in body.split(";")] if body else []
+
+
+def model_scale_default(rel, k):
+    """(events, duration) of the relative view after `scale(k)` with the default flag (quantise_afterwards=True), by the Lean hand model, from
+    the relative plain list `rel`; ('ERR', name) when the model raises; None when the model cannot say (a tick that is not an int)"""
+    if not all(isinstance(m[2], int) or m[2] is None for m in rel) or isinstance(k, bool) or not isinstance(k, int):
+        return None
+    ans = lean_seq(("rel", rel), [("scale", k, True), ("readRel",)])
+    if len(ans) != 2 or ans[0] != "ok" or not ans[1].startswith("R["):
+        return ("ERR", " | ".join(ans))
+    return content_rel(parse_plain_list(ans[1]))
